@@ -301,9 +301,15 @@ Definition queued_for (a : Z) (s : cstate) : Z := Z.of_nat (length (filter (is_d
 Definition to_optnat (t : tree) : option nat :=
   match tlist t with x :: _ => Some (Z.to_nat (tz x)) | [] => None end.
 
+(* GetEffectiveValPower (throttle.go): validator not found or jailed -> 0, else staking's LastValidatorPower (which is
+   refreshed only by the staking end-blocker, hence still non-zero for a validator jailed earlier in the same block) *)
+Definition eff_pow (found jailed : bool) (lastpow : Z) : Z := if negb found || jailed then 0 else lastpow.
+
+(* wire: [1, now, total] | [2, reach, found, jailed, lastpower, can_jail]  (staking state of the reported validator
+   before the packet; can_jail = known, not unbonded, not tombstoned, consumer has infraction parameters) *)
 Definition dec_pop (t : tree) : pop :=
   if tz (tnth 0 t) =? 1 then PBegin (tz (tnth 1 t)) (tz (tnth 2 t))
-  else PRecv (tbool (tnth 1 t)) (tz (tnth 2 t)).
+  else PRecv (tbool (tnth 1 t)) (eff_pow (tbool (tnth 2 t)) (tbool (tnth 3 t)) (tz (tnth 4 t))).
 
 (* one wire action = a group of ops observed together; the consumer's EndBlock (code 3) is SendPackets
    followed by ApplyCCValidatorChanges on the pending changes *)
@@ -378,7 +384,8 @@ Record pmon := mkPM {
 Definition upd_pts (pts : list (Z * Z * Z * Z)) (d r : Z) (l : option Z) : list (Z * Z * Z * Z) :=
   map (fun '(m, D, R, L) => (m, D + d, R + r, match l with Some x => x | None => L end)) pts.
 
-Definition pmon_step (frac period : Z) (st : pmon) (op : pop) (o : tree) : pmon :=
+Definition pmon_step (frac period : Z) (st : pmon) (opt : tree) (o : tree) : pmon :=
+  let op := dec_pop opt in
   let cls := tz (tnth 0 o) in let m' := tz (tnth 1 o) in let c' := tz (tnth 2 o) in let al := tz (tnth 3 o) in
   let m := pm_meter st in
   match op with
@@ -400,10 +407,16 @@ Definition pmon_step (frac period : Z) (st : pmon) (op : pop) (o : tree) : pmon 
         flag (if reach && negb (m <? 0) then m' =? m - pow else m' =? m) 5 in
       let pts := if 0 <? ded then upd_pts (pm_pts st) ded 0 (Some ded) else pm_pts st in
       let wbad := flag (forallb (fun '(mi, D, R, L) => D <=? Z.max 0 (mi + R) + L) pts) 6 in
-      mkPM m' c' (pm_lastrep st) (pts ++ [(m', 0, 0, 0)]) (pm_bad st ++ bad ++ wbad)
+      (* 10: the meter is charged the JAILED validator's power: a packet that lowers the meter must jail the reported
+             validator (observation field 4), unless that validator could not be jailed for a reason that does not occur
+             on a real chain (tombstoned but not jailed, unbonded with last power, consumer without infraction parameters);
+             in particular a packet for an already jailed validator never lowers the meter *)
+      let jailed_before := tbool (tnth 3 opt) in let can_jail := tbool (tnth 5 opt) in
+      let jbad := flag (negb (0 <? ded) || tbool (tnth 4 o) || (negb jailed_before && negb can_jail)) 10 in
+      mkPM m' c' (pm_lastrep st) (pts ++ [(m', 0, 0, 0)]) (pm_bad st ++ bad ++ wbad ++ jbad)
   end.
 
-Fixpoint pmon_run (frac period : Z) (st : pmon) (ops : list pop) (obs : list tree) : pmon :=
+Fixpoint pmon_run (frac period : Z) (st : pmon) (ops : list tree) (obs : list tree) : pmon :=
   match ops, obs with
   | op :: t, o :: ot => pmon_run frac period (pmon_step frac period st op o) t ot
   | _, _ => st
@@ -522,7 +535,7 @@ Fixpoint cmon_run (delay : Z) (st : cmon) (groups : list (list cop)) (obs : list
 Definition mon (t o : tree) : tree :=
   if tz (tnth 0 t) =? 1 then
     let cfg := tnth 1 t in let st := tnth 2 t in
-    let ops := map dec_pop (tlist (tnth 3 t)) in
+    let ops := tlist (tnth 3 t) in
     let m0 := tz (tnth 0 st) in
     of_zs (nodup Z.eq_dec
       (flag (Nat.eqb (length ops) (length (tlist o))) 99 ++
